@@ -57,6 +57,20 @@ WITNESSES = [
      "filename": "p.gdn",
      "input": "match read_line() { Ok(s) => println(\"LEAK:\" ^ s), Err(_) => println(\"err\") }\n",
      "expect": {"stdout_not_contains": "LEAK:secret"}, "note": "sandboxed code must not read standard input"},
+] + [
+    # an effectful built-in reached by every route a program has: directly, through a variable, as a function value
+    # handed to a prelude higher-order method (called from a frame of __prelude.gdn), inside a closure
+    {"match": r"arm_(fn|meth)_", "kind": "playground", "props": ["C24"], "timeout": 20, "filename": "p.gdn", "input": prog,
+     "expect": {"stdout_contains": "sandboxed mode"}, "note": "an effectful built-in must be refused in the sandbox whatever frame calls it"}
+    for prog in (
+        'import "__fs.gdn" as fs\n[Path{ p: "/var/tmp/verif_probe_zz_dir" }].map(fs::create_dir)\n',
+        'import "__fs.gdn" as fs\n[Path{ p: "/etc/hostname" }].map(fs::read_file)\n',
+        'import "__fs.gdn" as fs\n[Path{ p: "/var/tmp/verif_probe_zz_file" }].map(fs::remove_file)\n',
+        'import "__fs.gdn" as fs\nlet f = fs::read_file\nf(Path{ p: "/etc/hostname" })\n',
+        'import "__shell.gdn" as shell\nlet r = shell::run\n[("true", [])].map(fun(c) { let (a, b) = c  r(a, b) })\n',
+        '[Path{ p: "/etc/hostname" }].filter(fun(p: Path) { p.exists() })\n',
+        'import "__fs.gdn" as fs\nfun go(p: Path) { fs::list_directory(p) }\n[Path{ p: "/" }].map(go)\n',
+    )
 ]
 
 PRELUDE = """
